@@ -1,6 +1,7 @@
 import PercevalModel.Proto
 import PercevalModel.Model.C01
 import PercevalModel.Model.C01Reg
+import PercevalModel.Model.C01Range
 
 open Lean PM PM.Proto PM.C01
 
@@ -201,7 +202,100 @@ def handleRHist (j : Json) : Except String Json := do
     outs := outs.push o
   return Json.mkObj [("out", Json.arr outs)]
 
+/-! ### extension 8: `port_range` argument checks, range shifts, literal block assignment -/
+
+def portArgOf (j : Json) (k : ℕ) : Except String PortArg := do
+  if let .ok p := intOf j "int" then return .int p
+  else if let .ok p := intOf j "fd" then return floordivArg p k
+  else return .seq (← intList (← j.getObjVal? "seq"))
+
+def addOutStr : AddOut → String
+  | .ok => "ok"
+  | .assertion => "assertion"
+  | .valueError => "valueError"
+
+def handleRange (j : Json) : Except String Json := do
+  let m ← natOf j "m"
+  let k ← natOf j "k"
+  let a ← portArgOf (← j.getObjVal? "arg") k
+  let out := checkRange m k a
+  let norm := a.norm k
+  -- the range the item is stored under when merged into an outer circuit at range `outer`
+  let shifted ← match j.getObjVal? "outer" with
+    | .ok o => do pure (toJson (mergeRange (← intList o) norm))
+    | .error _ => pure Json.null
+  return Json.mkObj [("st", Json.str (addOutStr out)), ("norm", toJson norm), ("shifted", shifted)]
+
+def handleLit (j : Json) : Except String Json := do
+  let m ← natOf j "m"
+  let itemsJ ← arrOf j "items"
+  let mut l : List (List ℤ × (Σ k, Matrix (Fin k) (Fin k) GQ)) := []
+  let mut ok := true
+  for it in itemsJ do
+    let k ← natOf it "k"
+    let rows ← gqRows (← it.getObjVal? "U")
+    checkRows k rows
+    let r ← intList (← it.getObjVal? "r")
+    if checkRange m k (.seq r) ≠ .ok then ok := false
+    l := l ++ [(r, ⟨k, matOfRows k rows⟩)]
+  if !ok then throw "a range the real add rejects (harness error)"
+  let u := litUnitaryV m l
+  return Json.mkObj [("U", rowsToJson (u.toArray.map (·.toArray))),
+    ("first", toJson ((firstPorts l).map (·.1)))]
+
+def storedRanges : RItems GQ → List (List ℤ)
+  | .nil => []
+  | .cons r _ rest => r :: storedRanges rest
+
+def rleafOf (j : Json) : Except String (RComp GQ) := do
+  let k ← natOf j "leaf"
+  let rows ← gqRows (← j.getObjVal? "U")
+  checkRows k rows
+  return .leaf k (matOfRows k rows)
+
+/-- a whole port-range case run by the literal model: `radd` for every add, then `riter` and `rlitV` -/
+def handleRCase (j : Json) : Except String Json := do
+  let m ← natOf j "m"
+  if m = 0 then throw "AssertionError"
+  let mut items : RItems GQ := .nil
+  let mut outs : Array Json := #[]
+  for ad in (← arrOf j "adds") do
+    let cj ← ad.getObjVal? "comp"
+    let c ← if (cj.getObjVal? "leaf").isOk then rleafOf cj else do
+      let k ← natOf cj "circ"
+      if k = 0 then throw "AssertionError"
+      let mut inner : RItems GQ := .nil
+      for it in (← arrOf cj "inner") do
+        let lf ← rleafOf it
+        let r := radd k inner (.int (← intOf it "off")) lf false
+        if r.1 ≠ .ok then throw "inner add rejected (harness error)"
+        inner := r.2
+      pure (RComp.circ k inner)
+    let a ← portArgOf (← ad.getObjVal? "arg") c.size
+    let r := radd m items a c (← boolOf ad "merge")
+    outs := outs.push (Json.str (addOutStr r.1))
+    items := r.2
+  let u := rlitV (.circ m items)
+  return Json.mkObj [("outs", Json.arr outs), ("stored", toJson (storedRanges items)),
+    ("iter", toJson ((riter (.circ m items)).map (·.1))),
+    ("U", rowsToJson (u.toArray.map (·.toArray)))]
+
 def handle (j : Json) : Json :=
+  if let .ok r := j.getObjVal? "rcase" then
+    match handleRCase r with
+    | .error e => errJson e
+    | .ok r => r
+  else
+  if let .ok r := j.getObjVal? "range" then
+    match handleRange r with
+    | .error e => errJson e
+    | .ok r => r
+  else
+  if let .ok r := j.getObjVal? "lit" then
+    match handleLit r with
+    | .error e => errJson e
+    | .ok r => r
+  else
   if (j.getObjVal? "rhist").isOk then
     match handleRHist j with
     | .error e => errJson e
